@@ -34,8 +34,11 @@ func main() {
 	goarch := flag.String("goarch", "", "GOARCH override")
 	list := flag.Bool("list", false, "list properties")
 	dump := flag.Bool("dump", false, "print every obligation")
+	wb := flag.Bool("write-baselines", false, "(maintenance) rewrite /verif/baselines for this property from the current tree")
 	noEvidence := flag.Bool("no-evidence", false, "do not write evidence (used by the mutant self-test); prints findings only")
 	flag.Parse()
+	writeBaselines = *wb
+	verifDirGlobal = *verif
 	if *list {
 		var ids []string
 		for k := range registry {
@@ -163,6 +166,8 @@ func main() {
 	code := res.Finish(last, *verif, seed, time.Since(t0).Seconds(), p.Meta, cfgNames, selftest)
 	os.Exit(code)
 }
+
+var verifDirGlobal = "/verif"
 
 type jsonRaw []byte
 
